@@ -403,6 +403,7 @@ def body(ck):
                       "tags are recovered by rounding to the nearest integer (error < 1e-6 asserted)"]
     if not ck.build_coq() or not ck.compile_props():
         pass
+    ck.kernel_link()   # AbstractBuffer.batch_indices regenerated from the source = Batching.batch_indices (coq/link/C09_link.v)
     cases, cj = api_cases(ck, quick)
     ck.log(f"{len(cases)} buffer-api cases generated")
     res = ck.run_coq_cases("C09Check", cases, shard=40)
